@@ -46,6 +46,7 @@ var Prop = &engine.Prop{
 	},
 	ShardsQuick: 4, ShardsThorough: 16,
 	Kinds: []engine.Kind{
+		{Name: "cold-start", Quick: 64, Thorough: 640, Fn: coldStartCase},
 		{Name: "marshal", Quick: 2400, Thorough: 240000, Fn: marshalCase},
 		{Name: "unmarshal", Quick: 3000, Thorough: 300000, Fn: unmarshalCase},
 		{Name: "bigu32", Quick: 2400, Thorough: 240000, Fn: bigCase},
@@ -56,6 +57,7 @@ var Prop = &engine.Prop{
 	// All counters are pure functions of (seed, case counts); floors are ~1/10 of
 	// what seed 1 quick reaches.
 	Floors: map[string]int64{
+		"cold_start.fresh_process":        1,
 		"marshal.count_0":                 100,
 		"marshal.count_1":                 100,
 		"marshal.count_63":                100,
